@@ -17,6 +17,7 @@ import numpy as np
 import jax.numpy as jnp
 
 from harness import core
+from harness.workers.fd_common import in_code_under_test as _icut
 from harness.workers import fd_common as fc
 
 
@@ -66,6 +67,8 @@ def handle(job):
     else:
       runner = tfrun.Runner(o, [shape], job["seed"])
   except Exception as e:
+    if not _icut(e):
+      raise
     return {"results": [], "error": f"{type(e).__name__}: {e}", "kind": core.classify_exception(e),
             "tb": traceback.format_exc()[-1500:]}
   out = []
@@ -99,6 +102,8 @@ def handle(job):
     except core.MachineryError:
       raise
     except Exception as e:
+      if not _icut(e):
+        raise
       bad.append([-1, -1, "exception", f"{type(e).__name__}: {e}"])
       out.append({"bad": bad, "worst": worst, "tb": traceback.format_exc()[-1500:],
                   "kind": core.classify_exception(e)})
